@@ -83,7 +83,8 @@ SPEC = [
     ('py_beats_per_bar', 'beats_per_bar', 'getter', 'expr', ()),
     ('py_base_bar', 'base_bar', 'getter', 'expr', ()),
     ('py_base_bar_beat', 'base_bar_beat', 'getter', 'expr', ()),
-    ('py_init', '__init__', 'init', 'proc', ()),
+    ('py_init', '__init__', 'init', 'proc', ()),                 # TempoClock(tempo, beats, seconds): seconds given
+    ('py_init_now', '__init__', 'init', 'proc', ('seconds',)),   # TempoClock(tempo, beats): seconds is None
     ('py_tempo_set', 'tempo', 'setter', 'proc', ()),
     ('py_etempo', 'etempo', 'method', 'proc', ()),
     ('py_beats_set', 'beats', 'setter', 'proc', ()),
@@ -154,8 +155,17 @@ class TempoTranslator(FuncTranslator):
                     and e.attr in ('quant', 'phase') and self.quant_cast:
                 return self.locals['quant.' + e.attr]
         if isinstance(e, ast.BoolOp) and isinstance(e.op, ast.Or) and len(e.values) == 2 and self.is_init:
-            # `a or b` in numeric position (constructor defaults)
+            # `a or b` in numeric position (constructor defaults); None is falsy
+            if isinstance(e.values[0], ast.Name) and e.values[0].id in self.none_params:
+                return self.expr(e.values[1])
             return '(por %s %s)' % (self.expr(e.values[0]), self.expr(e.values[1]))
+        if isinstance(e, ast.IfExp):
+            # `x if p is None else y`: decided at translation time when p is None-bound / a number
+            t = self.test(e.test)
+            if t == 'true':
+                return self.expr(e.body)
+            if t == 'false':
+                return self.expr(e.orelse)
         return super().expr(e)
 
     def call(self, e):
@@ -274,7 +284,7 @@ class TempoTranslator(FuncTranslator):
         if self.quant_param and not self.quant_cast:
             refuse(fd, 'expected `%s`' % AS_QUANT_SRC)
         pre = ['(self : clockstate)']
-        if self.used_now:
+        if self.used_now or self.is_init:
             pre.append('(now_0 : num)')
         if self.used_elapsed:
             pre.append('(elapsed_0 : num)')
@@ -354,7 +364,7 @@ def gen_tempo(repo, gendir):
             tr = TempoTranslator(env, mode, quant_param=(pyname in ('play', 'time_to_next_beat')),
                                  none_params=none_params, is_init=(kind == 'init'))
             code, params = tr.method(fd, coqname, stop_at=INIT_STOP_SRC if kind == 'init' else None)
-            ent = {'coq': coqname, 'now': tr.used_now, 'elapsed': tr.used_elapsed, 'params': params,
+            ent = {'coq': coqname, 'now': tr.used_now or kind == 'init', 'elapsed': tr.used_elapsed, 'params': params,
                    'mode': mode, 'line': fd.lineno}
             if kind == 'getter':
                 env['prop:' + pyname] = ent
